@@ -11,7 +11,7 @@ ID = "C10"
 META = {
     "technique": "runtime monitoring: metamorphic monitor over pairs of complete runs of the real simulator — identical rebuild, permuted station registration, permuted constraint order, permuted session list, all three at once, and a k-period time shift; outputs recorded per station id / session id and compared with the base run; a tie detector on the sort keys excludes runs whose decisions hinge on ties",
     "design_ref": "DESIGN.md section 6 C10",
-    "level_text": "exploration: hundreds (quick) / tens of thousands (thorough) of generated scenarios x 6 relations, scripted, uncontrolled and finite-rate sorted schedulers (both algorithms, five orders, estimator and uninterrupted options), heterogeneous voltages, mixed-sign three-phase constraints; identical rebuilds must be bit-identical, permuted and shifted runs equal per station id / session id to 1e-9; relation rerun: the same EV objects after reset() reproduce the first run",
+    "level_text": "exploration: hundreds (quick) / tens of thousands (thorough) of generated scenarios x 6 relations, scripted, uncontrolled and finite-rate sorted schedulers (both algorithms, five orders, estimator and uninterrupted options), heterogeneous voltages, mixed-sign three-phase constraints; identical rebuilds must be bit-identical, permuted and shifted runs equal per station id / session id to 1e-9; relation rerun: the same EV objects after reset() reproduce the first run; event batches failing part-way and completed by hand",
     "level_note": "sorted runs in which two simultaneously active sessions have priority keys closer than 1e-9 (or, with uninterrupted charging, equal remaining times, which order the reservation of minimum pilots) at any invocation are counted and not judged for the permutation relations (the property excludes schedulers whose decisions hinge on ties); noisy batteries draw from numpy's global RNG in station order, so cases with noise are judged for the rebuild relation only; the shift relation is applied when the periodic-recompute phase cannot move relative to the events (max_recompute in {None,1} or first event at period 0)",
 }
 LEVEL = "exploration"
